@@ -169,6 +169,50 @@ pub fn check(cx: &Cx, rep: &mut Report) {
             _ => {}
         }
     }
+    // R5: burst traffic (checked by an in-actor monitor, no per-message log events): every client's sequence
+    // numbers arrive in order, none lost, none duplicated
+    for e in ix.ev {
+        if let K::Effect { what, msg, arg, actor, .. } = &e.k {
+            if *what == "burst_inversion" {
+                rep.fail(P, "R5", "burst_order", format!("actor task {actor}: burst message #{} of client {} arrived when #{arg} was expected (program order of one client broken, or a message lost/duplicated)", msg & 0xffff_ffff, msg >> 32), vec![e.stamp]);
+            }
+        }
+    }
+    let fx = super::facts::facts(cx);
+    for o in ix.ops.iter().filter(|o| o.op == OpK::Burst && o.executed()) {
+        rep.premise("C01.R5.burst_in_order");
+        clients.insert(o.c);
+        if let Some(Res::Count(n)) = &o.res {
+            rep.premise_n("C01.R5.burst_messages", *n);
+        }
+    }
+    for af in fx.values() {
+        if af.decl.is_none() || af.failed() {
+            continue;
+        }
+        // counts logged by stopped(): compare with what the clients' bursts got accepted, when every burst had
+        // completed before any termination cause
+        let counts: Vec<(u64, u64)> = ix.ev.iter().filter_map(|e| if let K::Effect { what, msg, arg, actor, .. } = &e.k { if *what == "burst_count" && *actor == af.task { Some((*msg, *arg)) } else { None } } else { None }).collect();
+        if counts.is_empty() {
+            continue;
+        }
+        let cause = af.first_term_cause();
+        for (client, handled) in counts {
+            let bursts: Vec<&crate::index::OpRec> = ix.ops.iter().filter(|o| o.op == OpK::Burst && o.c as u64 == client && o.tag == af.tag).collect();
+            let all_before = bursts.iter().all(|o| o.e.map(|e| cause.map(|c| e < c).unwrap_or(true)).unwrap_or(false));
+            let sent: u64 = bursts.iter().map(|o| if let Some(Res::Count(n)) = &o.res { *n } else { 0 }).sum();
+            if all_before {
+                rep.premise("C01.R5.burst_count");
+                if handled != sent {
+                    rep.fail(P, "R5", if handled < sent { "burst_lost" } else { "burst_duplicated" }, format!("actor tag {}: client {client} had {sent} burst messages accepted before any termination cause, {handled} were handled", af.tag), vec![]);
+                }
+            }
+        }
+    }
+    if ix.ops.iter().any(|o| o.op == OpK::Burst) && clients.len() >= 2 {
+        paths.insert(Path::Waiting);
+        paths.insert(Path::Forcing);
+    }
     // non-trivial: >= 2 clients submitted, and both paths used
     rep.nontrivial = clients.len() >= 2 && paths.contains(&Path::Waiting) && paths.contains(&Path::Forcing);
 }
